@@ -4,7 +4,10 @@ import (
 	"bytes"
 	"io"
 
+	"github.com/acarl005/stripansi"
+	"github.com/mattn/go-runewidth"
 	"github.com/vbauerster/mpb/v8/decor"
+	"github.com/vbauerster/mpb/v8/internal"
 )
 
 // BarOption is a func option to alter default behavior of a bar.
@@ -78,7 +81,7 @@ func BarFillerOnComplete(message string) BarOption {
 	return BarFillerMiddleware(func(base BarFiller) BarFiller {
 		return BarFillerFunc(func(w io.Writer, st decor.Statistics) error {
 			if st.Completed {
-				_, err := io.WriteString(w, message)
+				_, err := io.WriteString(w, fitMessage(message, st))
 				return err
 			}
 			return base.Fill(w, st)
@@ -97,12 +100,24 @@ func BarFillerOnAbort(message string) BarOption {
 	return BarFillerMiddleware(func(base BarFiller) BarFiller {
 		return BarFillerFunc(func(w io.Writer, st decor.Statistics) error {
 			if st.Aborted {
-				_, err := io.WriteString(w, message)
+				_, err := io.WriteString(w, fitMessage(message, st))
 				return err
 			}
 			return base.Fill(w, st)
 		})
 	})
+}
+
+// fitMessage cuts message to the width which is left for the filler.
+func fitMessage(message string, st decor.Statistics) string {
+	width := internal.CheckRequestedWidth(st.RequestedWidth, st.AvailableWidth)
+	if runewidth.StringWidth(stripansi.Strip(message)) <= width {
+		return message
+	}
+	if width < 1 {
+		return ""
+	}
+	return runewidth.Truncate(stripansi.Strip(message), width, "…")
 }
 
 // BarFillerMiddleware provides a way to augment the underlying BarFiller.
